@@ -20,6 +20,9 @@ pub struct Case {
     /// page-frame bits 12..31 of the queue's base address are all set, so that forming an area
     /// address with anything but an addition (carry) shows.
     pub skew: u32,
+    /// Make the k-th DMA allocation (1-based; 0 = none) fail: creation must fail with DmaError,
+    /// register nothing, and return exactly the regions it did obtain.
+    pub fail_alloc: u32,
 }
 
 pub fn max_values(n: usize) -> Vec<u32> {
@@ -38,7 +41,12 @@ pub fn max_values(n: usize) -> Vec<u32> {
 pub fn run_case<const N: usize>(c: Case) -> (String, Vec<(String, String)>) {
     let mut v: Vec<(String, String)> = vec![];
     hal::reset();
-    hal::with(|h| h.skew_dma(c.skew as u64));
+    hal::with(|h| {
+        h.skew_dma(c.skew as u64);
+        if c.fail_alloc > 0 {
+            h.fail_dma_at = Some(c.fail_alloc as usize - 1);
+        }
+    });
     let mut d = VirtioDev::new(DeviceType::Block, 0, 1, c.max, vec![]);
     d.legacy = c.legacy;
     d.queues[0].in_use_answer = c.in_use;
@@ -54,7 +62,12 @@ pub fn run_case<const N: usize>(c: Case) -> (String, Vec<(String, String)>) {
     };
     let allocs = hal::with(|h| h.log.iter().filter(|e| matches!(e, HalEvent::DmaAlloc { .. })).count());
     let sets: Vec<TEvent> = dev.borrow().log.iter().filter(|e| matches!(e, TEvent::QueueSet { .. })).cloned().collect();
-    let expect_err = if c.in_use { Some(Error::AlreadyUsed) } else if c.max < N as u32 { Some(Error::InvalidParam) } else { None };
+    let mut expect_err = if c.in_use { Some(Error::AlreadyUsed) } else if c.max < N as u32 { Some(Error::InvalidParam) } else { None };
+    let needed_allocs = if c.legacy { 1 } else { 2 };
+    let alloc_fails = expect_err.is_none() && c.fail_alloc > 0 && c.fail_alloc <= needed_allocs;
+    if alloc_fails {
+        expect_err = Some(Error::DmaError);
+    }
     let outcome;
     match (r, expect_err) {
         (Err(e), Some(w)) => {
@@ -62,8 +75,14 @@ pub fn run_case<const N: usize>(c: Case) -> (String, Vec<(String, String)>) {
             if e != w {
                 v.push(("wrong-refusal".into(), format!("refused with {:?}, expected {:?} (in_use={}, max={}, N={})", e, w, c.in_use, c.max, N)));
             }
-            if allocs != 0 {
+            if allocs != 0 && !alloc_fails {
                 v.push(("refusal-allocated".into(), format!("refused creation ({:?}) made {} dma_alloc calls", e, allocs)));
+            }
+            if alloc_fails {
+                let (live, ok, de) = hal::with(|h| (h.live_dma_count(), h.log.iter().filter(|e| matches!(e, HalEvent::DmaAlloc { failed: false, .. })).count(), h.log.iter().filter(|e| matches!(e, HalEvent::DmaDealloc { .. })).count()));
+                if live != 0 || ok != de {
+                    v.push(("failed-creation-release".into(), format!("creation failed at DMA allocation #{}: {} regions obtained, {} dma_dealloc calls, {} still allocated", c.fail_alloc, ok, de, live)));
+                }
             }
             if !sets.is_empty() {
                 v.push(("refusal-registered".into(), format!("refused creation ({:?}) called queue_set", e)));
